@@ -17,12 +17,16 @@ def shipped_params(cls, rnd, extreme=False):
     if cls == 'SIS_FixedRecovery': return {SIS.P_INFECTED: 0.25, SIS.P_INFECT: p(), SIS_FixedRecovery.T_INFECTED: rnd.choice([0.5, 1.0, 1.75, 2.5])}
     if cls == 'Opinion': return {Opinion.P_AFFECTED: 0.25, Opinion.P_AFFECT: p(), Opinion.P_STIFLE: p()}
     if cls == 'SIR_VariableInfection': return {SIR.P_INFECTED: 0.25, SIR.P_REMOVE: p()}
+    if cls == 'SIvR': return {SIR.P_INFECTED: 0.25, SIR.P_INFECT: p(), SIR.P_REMOVE: p(), SIvR.EFFICACY: rnd.choice([0.0, 0.25, 0.5, 0.75, 1.0]),
+                              SIvR.T_OFFSET: rnd.choice([0.0, 0.0, 0.5, 1.0])}
+    if cls == 'Vaccinate': return {Opinion.P_AFFECTED: 0.25, Opinion.P_AFFECT: p(), Opinion.P_STIFLE: p(), Vaccinate.P_VACCINATE: rnd.choice([0.25, 0.5, 1.0])}
     raise ValueError(cls)
 
 
 CLASSES = dict(SIR=SIR, SIS=SIS, SIRS=SIRS, SEIR=SEIR, SIR_FixedRecovery=SIR_FixedRecovery, SIS_FixedRecovery=SIS_FixedRecovery,
                Opinion=Opinion, SIR_VariableInfection=SIR_VariableInfection)
 SHIPPED = list(CLASSES)
+CLASSES.update(SIvR=SIvR, Vaccinate=Vaccinate)
 
 
 def rand_net(rnd, nmin=2, nmax=8, dens=None, kind=None):
@@ -231,6 +235,40 @@ def gen_forced(rnd, dyn=None):
     return base
 
 
+def gen_vacc(rnd, dyn=None):
+    """SIvR with the Vaccinate opinion process driving vaccination (the intended composition), optionally SIvR alone"""
+    nodes, edges = rand_net(rnd, 3, 7, kind=rnd.choice(['er', 'complete', 'star', 'path']))
+    # (two compartmented models in one simulation have to be named instances: unnamed ones share the 'compartment' attribute)
+    procs = [dict(cls='SIvR', name='d', params=shipped_params('SIvR', rnd))]
+    if rnd.random() < 0.85: procs.append(dict(cls='Vaccinate', name='o', params=shipped_params('Vaccinate', rnd)))
+    if rnd.random() < 0.5: procs.reverse()
+    ps = sorted({v for p in procs for v in p['params'].values() if isinstance(v, float) and 0 < v < 1})
+    return dict(procs=procs, seq='list', dyn=dyn or rnd.choice(['sto', 'syn']), nodes=nodes, edges=edges, maxT=rnd.choice([3.0, 6.0]), seed=rnd.random(),
+                specials=ps, pspecial=0.2, oracles=['clock', 'member', 'loci', 'diagram', 'forest', 'vacc'])
+
+
+def oracle_vacc(d, ex, cur, t, p, name, e):
+    """SIvR's marker loci: infected-unvaccinated and infected-vaccinated are disjoint and hold infected nodes only"""
+    g = d.network()
+    for q in ex.cms:
+        if type(q).__name__ != 'SIvR': continue
+        a = set(q.locus(q.INFECTED_N)); b = set(q.locus(q.INFECTED_V))
+        inf = {n for n in g.nodes() if g.nodes[n].get(q.COMPARTMENT) == q.INFECTED}
+        if a & b: return ('vacc', f"nodes {sorted(a & b)} are in both marker loci")
+        if q is p and isinstance(e, tuple) and name == q.INFECTED:
+            n = e[0]; eff = q._efficacy
+            effective = bool(g.nodes[n].get('vaccincated')) and g.nodes[n].get('vaccination_time', 0.0) + q._offset < t
+            infected = g.nodes[n].get(q.COMPARTMENT) == q.INFECTED
+            if effective and eff == 1.0 and infected: return ('vacc', f"node {n}, vaccinated with efficacy 1 in effect since {g.nodes[n].get('vaccination_time')}, was infected at {t}")
+            if eff == 0.0 and not infected: return ('vacc', f"infection of {n} at {t} failed although the vaccine has efficacy 0")
+            if not effective and not infected: return ('vacc', f"infection of the unvaccinated (or not yet protected) node {n} at {t} failed")
+        if not (a | b) <= inf: return ('vacc', f"marker loci hold {sorted((a | b) - inf)}, which are not infected")
+    return None
+
+
+ORACLES['vacc'] = oracle_vacc
+
+
 def gen_script_queue(rnd, dyn=None):
     """a scripted process mixing per-element, fixed-rate, posted and self-re-posting events whose handlers call the queue API"""
     ncomp = 2
@@ -370,7 +408,7 @@ RUNNERS = dict(ops=run_ops_case)
 DIAGRAMS = {
     'SIR': {('S', 'I'), ('I', 'R')}, 'SIS': {('S', 'I'), ('I', 'S')}, 'SIRS': {('S', 'I'), ('I', 'R'), ('R', 'S')},
     'SEIR': {('S', 'E'), ('E', 'I'), ('I', 'R')}, 'SIR_FixedRecovery': {('S', 'I'), ('I', 'R')}, 'SIS_FixedRecovery': {('S', 'I'), ('I', 'S')},
-    'SIR_VariableInfection': {('S', 'I'), ('I', 'R')}, 'Opinion': {('G', 'P'), ('P', 'T')}, 'SIvR': {('S', 'I'), ('I', 'R')},
+    'SIR_VariableInfection': {('S', 'I'), ('I', 'R')}, 'Opinion': {('G', 'P'), ('P', 'T')}, 'SIvR': {('S', 'I'), ('I', 'R')}, 'Vaccinate': {('G', 'P'), ('P', 'T')},
 }
 
 
@@ -494,15 +532,20 @@ def final_forest(d, ex, res, md, spec):
             if any(n in ever for n in ns):
                 k = [n for n in ns if n in seed]
                 if len(k) != 1: return f"{cls}: the occupied tree {sorted(ns)} contains {len(k)} initially infected seeds"
+        multi = len(ex.cms) > 1
         for n in g.nodes():
             hit = g.nodes[n].get('tHitting')
+            # the hitting mark is one shared attribute: with several instances it records the first of them to reach the node
+            if multi and hit is not None and g.nodes[n].get('hittingProcess') != q.instanceName(): hit = None if n not in ever or n in seed else 'other'
+            if hit == 'other': continue
             inc = [(a, b) for (a, b) in occ if n in (a, b)]
             if n in seed:
                 if hit is not None: return f"{cls}: seed {n} has hitting time {hit}"
             elif n in ever:
                 mine = [(a, b) for (a, b) in inc if g.edges[a, b].get('tOccupied') == hit]
                 if hit is None: return f"{cls}: infected node {n} has no hitting time"
-                if len(mine) < 1: return f"{cls}: infected node {n} (hit at {hit}) has no occupied edge occupied at that time"
+                # (tOccupied is one shared attribute too: with several instances a later instance's occupation of the same edge overwrites it)
+                if len(mine) < 1 and not multi: return f"{cls}: infected node {n} (hit at {hit}) has no occupied edge occupied at that time"
             else:
                 if inc: return f"{cls}: never-infected node {n} touches occupied edge {inc[0]}"
                 if hit is not None: return f"{cls}: never-infected node {n} has hitting time {hit}"
@@ -523,11 +566,13 @@ def oracle_forest(d, ex, cur, t, p, name, e):
         if not g.has_edge(n, m): return None
         data = g.edges[n, m]
         first = d.__dict__.setdefault('_vp_first', {})
+        if hasattr(q, 'SUSCEPTIBLE') and g.nodes[n].get(q.COMPARTMENT) == q.SUSCEPTIBLE: return None       # (SIvR: the vaccine held)
         if (id(q), n) not in first:
             first[(id(q), n)] = t
+            if len(ex.cms) > 1 and g.nodes[n].get('hittingProcess') != q.instanceName(): return None       # first reached by another instance
             if not data.get(q.OCCUPIED, False): return ('forest', f"infection of {n} through {e} at {t} did not mark the edge occupied")
             if g.nodes[n].get('tHitting') != t: return ('forest', f"node {n} infected at {t} has hitting time {g.nodes[n].get('tHitting')}")
-            if data.get('tOccupied') != t and type(q).__name__ not in ('SIS', 'SIS_FixedRecovery', 'SIRS'):
+            if data.get('tOccupied') != t and type(q).__name__ not in ('SIS', 'SIS_FixedRecovery', 'SIRS') and len(ex.cms) == 1:
                 return ('forest', f"edge {e} occupied by the infection at {t} records occupation time {data.get('tOccupied')}")
             hm = g.nodes[m].get('tHitting')
             if m not in d._vp_seeds.get(id(q), set()) and (hm is None or not hm < t):
